@@ -7,7 +7,9 @@ computed by the harness's independent parser, and the visitor configurations.
 
   read <bytes> (<frame>…) (<cfg>…)            successive reads on one stream
   replay <bytes> <frame> <cfg>                tree of the full read replayed into a visitor configured by cfg
-  oracle-projection / oracle-consumed / oracle-concat / oracle-decline-local / oracle-replay
+  oracle-projection / oracle-consumed / oracle-concat / oracle-decline-local / oracle-replay / oracle-full-read
+  oracle-replay-projection / oracle-replay-masked / oracle-replay-masked-full / oracle-replay-masked-nolocals
+  oracle-members-skipped / replay-both / oracle-replay-both
 -/
 
 open Driver Sexp Visit
@@ -49,12 +51,15 @@ def toCAttr? : Sexp → Option CAttr
   | .list [.atom "Record", len, comps] => do pure (.record (← toNat? len) (← toListOf? toRecComp? comps))
   | s => (toAttr? s).map .leaf
 
+/-- a member is `(h attrs)`; a third element `f` says that its name / descriptor index does not resolve to a valid name -/
 def toField? : Sexp → Option Field
   | .list [h, attrs] => do pure { h := ← toNat? h, attrs := ← toListOf? toAttr? attrs }
+  | .list [h, attrs, ok] => do pure { h := ← toNat? h, attrs := ← toListOf? toAttr? attrs, ok := ← toBool? ok }
   | _ => none
 
 def toMethod? : Sexp → Option Method
   | .list [h, attrs] => do pure { h := ← toNat? h, attrs := ← toListOf? toMAttr? attrs }
+  | .list [h, attrs, ok] => do pure { h := ← toNat? h, attrs := ← toListOf? toMAttr? attrs, ok := ← toBool? ok }
   | _ => none
 
 def toFrame? : Sexp → Option ClassFrame
@@ -112,8 +117,9 @@ def ofEv : Ev → Sexp
   | .codeExc i h => list [tag "k-exc", ofNat i, ofNat h]
   | .codeLines i parts => list [tag "k-lines", ofNat i, ofNat (parts.foldl (fun a p => a + sumPay p) 0)]
   | .codeLocals i parts =>
-    list [tag "k-locals", ofNat i, ofNat ((parts.filter (·.1)).foldl (fun a p => a + sumPay p.2) 0),
-          ofNat ((parts.filter (!·.1)).foldl (fun a p => a + sumPay p.2) 0)]
+    -- entries that carry a descriptor, entries that carry a signature (one with both counts twice)
+    list [tag "k-locals", ofNat i, ofNat ((parts.filter (fun x => x.1 != .s)).foldl (fun a p => a + sumPay p.2) 0),
+          ofNat ((parts.filter (fun x => x.1 != .d)).foldl (fun a p => a + sumPay p.2) 0)]
   | .codeEnd i => list [tag "k-end", ofNat i]
   | .methodFlags i d s => list [tag "m-flags", ofNat i, ofBool d, ofBool s]
   | .methodEnd i => list [tag "m-end", ofNat i]
@@ -139,6 +145,11 @@ def inDomain (cs : List ClassFrame) (total : Nat) : Bool :=
 
 def isOk : R (Nat × List Ev) → Bool
   | .ok _ => true
+  | _ => false
+
+/-- events of the class itself and its record components -/
+def isClassLevel : Ev → Bool
+  | .classBegin _ | .cAttr .. | .classFlags .. | .classEnd | .recBegin .. | .rAttr .. | .recEnd _ => true
   | _ => false
 
 def evsOf : R (Nat × List Ev) → List Ev
@@ -245,23 +256,30 @@ def handle (op : String) (args : List Sexp) : Option Ans :=
       match build (fullEvents c) with
       | none => ood
       | some t => if accept cfg t == (accept full t).filterMap (projA cfg) then pass else fail "replay-projection")
-  | "oracle-replay-masked", [bytes, frame, cfg] => do
+  | "replay-both", [_, frame, cfg] => do
+    -- the tree of the full read with a descriptor and a signature put into every local variable entry, replayed
+    let c ← toFrame? frame
+    let cfg ← toCfg? cfg
+    pure (if !wellFormed c then .err "e" else
+      match build (fullEvents c) with
+      | some t => .ok (ofList ofEv (accept cfg t.bothHalves))
+      | none => .err "e")
+  | "oracle-replay-both", [bytes, frame, cfg] => do
+    -- `accept_projection_as_read` / `_up_to_empty` on such a tree: masked replay = the reader's projection of the full
+    -- replay (halves stripped), up to `visit_local_variables` calls without entries
     let total ← byteLen bytes
     let c ← toFrame? frame
     let cfg ← toCfg? cfg
-    pure (if !inDomain [c] total || !cfg.fieldsI || !cfg.methodsI
-          || !((List.range c.methods.length).all (fun i => match codeMaskOf cfg i with
-                | some cm => cm .stackMapTable && (cm .lvt == cm .lvtt) | none => true)) then ood else
+    pure (if !inDomain [c] total then ood else
       match build (fullEvents c) with
       | none => ood
       | some t =>
-        match readWith cfg c total with
-        | .ok (_, evs) => if sameDigest (accept cfg t) evs then pass else fail "replay-masked"
-        | _ => fail "read")
-  | "oracle-replay-masked-full", [bytes, frame, cfg] => do
-    -- the property as stated (replay = read for every visitor), without the restriction to the configurations on
-    -- which the code agrees with it: fails where the reader ignores `fields` / `methods` (open finding) and where
-    -- `Code::accept` ignores the stack map / local variable interests
+        let t := t.bothHalves
+        if (accept cfg t).filter (fun e => !e.vacuous) == ((accept full t).filterMap (proj cfg)).filter (fun e => !e.vacuous)
+        then pass else fail "replay-both")
+  | "oracle-replay-masked", [bytes, frame, cfg] => do
+    -- `accept_projection_as_read` (per item and kind; local variable vectors without entries say nothing): replay = read
+    -- for every visitor — fields / methods on or off, any stack map interest, any local variable interests
     let total ← byteLen bytes
     let c ← toFrame? frame
     let cfg ← toCfg? cfg
@@ -272,6 +290,47 @@ def handle (op : String) (args : List Sexp) : Option Ans :=
         match readWith cfg c total with
         | .ok (_, evs) => if sameDigest (accept cfg t) evs then pass else fail "replay-masked"
         | _ => fail "read")
+  | "oracle-replay-masked-full", [bytes, frame, cfg] => do
+    -- the property as stated (replay = read for every visitor), without any restriction on the visitor (since 52da0aa,
+    -- 47a6ce7 and e55a129 the same as `oracle-replay-masked`; kept for the recorded witness lines)
+    let total ← byteLen bytes
+    let c ← toFrame? frame
+    let cfg ← toCfg? cfg
+    pure (if !inDomain [c] total then ood else
+      match build (fullEvents c) with
+      | none => ood
+      | some t =>
+        match readWith cfg c total with
+        | .ok (_, evs) => if sameDigest (accept cfg t) evs then pass else fail "replay-masked"
+        | _ => fail "read")
+  | "oracle-replay-masked-nolocals", [bytes, frame, cfg] => do
+    -- `accept_projection_as_read`: for every visitor, replay = read on everything but `visit_local_variables`
+    let total ← byteLen bytes
+    let c ← toFrame? frame
+    let cfg ← toCfg? cfg
+    pure (if !inDomain [c] total then ood else
+      match build (fullEvents c) with
+      | none => ood
+      | some t =>
+        match readWith cfg c total with
+        | .ok (_, evs) =>
+          if sameDigest ((accept cfg t).filter (fun e => !(e matches .codeLocals ..)))
+              (evs.filter (fun e => !(e matches .codeLocals ..))) then pass else fail "replay-masked"
+        | _ => fail "read")
+  | "oracle-members-skipped", [bytes, frames, cfgs] => do
+    -- `members_skipped_read_spec`: class visitors without interest in fields and methods (or declining the class) read a
+    -- stream of files whose headers and class attributes are fine, one file per read — whatever is inside the members
+    let total ← byteLen bytes
+    let cs ← toListOf? toFrame? frames
+    let cfgs ← toListOf? toCfg? cfgs
+    pure (if !(cs.all classLevelWf && total == (cs.map ClassFrame.size).foldl (· + ·) 0) || cfgs.length != cs.length
+          || !cfgs.all (fun cfg => cfg.cls.isNone || (!cfg.fieldsI && !cfg.methodsI)) then ood else
+      let rs := readStream cfgs cs 0 total
+      if rs.length != cs.length then fail "short" else
+      if (List.zip cs rs).all (fun (c, r) => match r with
+          | .ok (n, evs) => n == c.size && evs.all isClassLevel
+          | _ => false)
+      then pass else fail "members-skipped")
   | _, _ => none
 
 end C17
